@@ -545,6 +545,7 @@ func mkNodeHeightBound(c *core.Ctx, ctor, mk *ssa.Function) {
 	}
 	ok, why := true, ""
 	bounded := map[string]bool{} // keys of terms known to be <= levels
+	atLeast := map[string]int64{} // keys of loop counters -> the smallest value they enter their loop with (steps are +1)
 	for _, h := range an.Headers {
 		for _, in := range h.Instrs {
 			phi, isPhi := in.(*ssa.Phi)
@@ -557,6 +558,7 @@ func mkNodeHeightBound(c *core.Ctx, ctor, mk *ssa.Function) {
 			}
 			sym := an.Start[h].Reg(phi)
 			inductive := true
+			lower, lowerKnown := int64(1<<40), true
 			for _, ps := range an.Segs {
 				for _, p := range ps {
 					if p.To != h {
@@ -564,10 +566,20 @@ func mkNodeHeightBound(c *core.Ctx, ctor, mk *ssa.Function) {
 					}
 					v := p.PhiOut[phi]
 					if p.From == nil || !ir.LoopBlocks(h)[p.From] {
-						if k, isK := v.IntConst(); !isK || k > 0 {
+						if k, isK := v.IntConst(); isK {
+							if k < lower {
+								lower = k
+							}
+						} else {
+							lowerKnown = false
+						}
+						if k, isK := v.IntConst(); !isK || k > 1 {
 							inductive = false
 						}
 						continue
+					}
+					if d, isD := plusConst(v, sym); !isD || d < 0 {
+						lowerKnown = false
 					}
 					d, isD := plusConst(v, sym)
 					switch {
@@ -583,8 +595,15 @@ func mkNodeHeightBound(c *core.Ctx, ctor, mk *ssa.Function) {
 			if inductive {
 				bounded[sym.Key()] = true
 			}
+			if lowerKnown && lower < 1<<40 {
+				atLeast[sym.Key()] = lower
+			}
 		}
 	}
+	if c.Rules["node-height-positive"] == nil {
+		c.Doc("node-height-positive", 1, "every new node has at least one level, whatever the random draw: a node of height 0 is linked nowhere and its key is lost")
+	}
+	okPos, whyPos := true, ""
 	n := 0
 	for _, p := range an.AllPaths() {
 		if p.Exit != ir.ExitReturn || len(p.Results) == 0 {
@@ -600,8 +619,21 @@ func mkNodeHeightBound(c *core.Ctx, ctor, mk *ssa.Function) {
 				}
 			}
 		}
-		if k, isK := r.IntConst(); isK && k <= 0 {
-			continue
+		// at least one level: a constant >= 1, the number of levels itself, a counter that enters its loop with >= 1 and
+		// only grows, or a value the path has found different from / greater than 0
+		{
+			k, isK := r.IntConst()
+			lb, hasLB := atLeast[r.Key()]
+			switch {
+			case isK && k >= 1, isLevels(r), hasLB && lb >= 1:
+			case !isK && polarity(p, &ir.Term{Op: "bin", Aux: "==", Args: sorted2(ir.Const("0"), r)}) < 0:
+			default:
+				okPos = false
+				whyPos = "the height " + short(r) + " of a new node can be 0: its first level depends on the random draw (float64(Int63())/(1<<63) rounds to exactly 1.0 for the largest draws, and 1.0 < p[0] = 1.0 fails); a node without levels is linked nowhere, so Put loses the key"
+			}
+		}
+		if k, isK := r.IntConst(); isK && k <= 1 {
+			continue // one level: within bounds for every list the constructor can build (it has at least one level)
 		}
 		if isLevels(r) {
 			continue // the number of levels itself (the loop ran out): the bound is attained, not exceeded
@@ -611,6 +643,7 @@ func mkNodeHeightBound(c *core.Ctx, ctor, mk *ssa.Function) {
 		}
 	}
 	c.Check(ok && n > 0, "level-loops", name, mk.Pos(), "node height <= list."+lvField+" = len(path) = len(head.fingers)", "%s", why)
+	c.Check(okPos && n > 0, "node-height-positive", name, mk.Pos(), "node height >= 1 on every path", "%s", whyPos)
 }
 
 // guardedByLevels: path p carries the fact counter < <levels field>.
